@@ -715,3 +715,54 @@ func init() {
 		Trigger:  triggerData,
 	})
 }
+
+// ---------------------------------------------------------------------------
+// C14: subject hygiene
+
+func init() {
+	register(&SimProp{
+		ID: "C14",
+		Profiles: []*Profile{
+			{Name: "c14-hostile", MinOps: 8, MaxOps: 45, MaxConns: 2, Versions: []string{"1.2.3", ""}, Prologue: 20,
+				W: weightsWith(map[string]int{"hostilereq": 40, "hostilehttp": 30, "badanswer": 8, "badreq": 6, "burst": 0, "auth": 2, "call": 4, "new": 2, "mutate": 2, "custom": 0, "silent": 0, "sysreset": 1, "qmutate": 0, "qevent": 1,
+					"delete": 0, "reaccess": 0, "token": 1, "tokreset": 2, "httpget": 3, "httppost": 3, "subscribe": 8, "get": 3, "unsubscribe": 2, "close": 1, "connect": 3, "answer": 20}),
+				AccessOut: map[string]int{"grant": 14, "deny": 2},
+				GetOut:    map[string]int{"ok": 16, "notfound": 2},
+				CallOut:   map[string]int{"resource": 4, "result": 5, "err": 1},
+				RIDs:      []string{"t.a", "t.b", "t.c", "t.{cid}", "t.q?a=1", "t.q?x.y=*"},
+			},
+		},
+		Config: func(t *rapid.T, p *Profile) WorldConfig {
+			cfg := stdConfig(t, p)
+			cfg.Resources = append(cfg.Resources, ResDef{Name: "t.{cid}", Type: "model", Model: map[string]Val{"x": Prim("1")}, PerCID: true},
+				ResDef{Name: "t.q", Type: "model", Model: map[string]Val{"x": Prim("1")}, QueryMap: map[string]string{"a=1": "a=1", "x.y=*": "x.y=*"}})
+			cfg.APIPath = rapid.SampledFrom([]string{"/api/", "/", "/v1/res/"}).Draw(t, "apipath")
+			if rapid.Bool().Draw(t, "mapping") {
+				cfg.PUTMethod = "set"
+				cfg.DELETEMethod = "del"
+			}
+			return cfg
+		},
+		Monitors: func() []Monitor { return []Monitor{NewMonC14()} },
+	})
+}
+
+// ---------------------------------------------------------------------------
+// C15: crash freedom and containment
+
+func init() {
+	register(&SimProp{
+		ID: "C15",
+		Profiles: []*Profile{
+			func() *Profile {
+				p := dataProfile("c15-inject", map[string]int{"inject": 40, "badanswer": 4, "hostilereq": 4, "sysreset": 5, "qevent": 8, "qmutate": 6, "silent": 5, "mutate": 10, "custom": 2})
+				p.Prologue = 80
+				p.Protocol = true
+				return p
+			}(),
+		},
+		Config:   graphConfig,
+		Monitors: func() []Monitor { return []Monitor{NewMonC15(), NewMonC01(), NewMonC07()} },
+		Trigger:  triggerData,
+	})
+}
